@@ -118,7 +118,9 @@ func newRouter(config RouterConfig, logger watermill.LoggerAdapter) *Router {
 		runningHandlersWg:     &sync.WaitGroup{},
 		runningHandlersWgLock: &sync.Mutex{},
 
-		handlerAdded: make(chan struct{}),
+		// buffered: AddHandler signals without blocking, and the signal must not be lost when
+		// watchAllHandlersStopped is not waiting for it yet
+		handlerAdded: make(chan struct{}, 1),
 
 		middlewaresLock: &sync.RWMutex{},
 		handlersLock:    &sync.RWMutex{},
